@@ -54,6 +54,10 @@ extern int mpt_queue_recv(MPT_STRUCT(decode_queue) *qu)
 	ssize_t res;
 	
 	if (!(len = qu->data.len)) {
+		/* consume delivered empty message */
+		if (qu->_dec && !qu->_state.data.msg) {
+			qu->_state.data.msg = -1;
+		}
 		return MPT_ERROR(MissingData);
 	}
 	/* get new data part */
